@@ -360,6 +360,23 @@ plain = executable('plain', files=['main.c'], libs=[cxx], lang='c')
                  'v.push_back("abc"); return (int)v[0].size(); }\n',
       'main.c': 'int cxx_len(void);\nint main(void) { return cxx_len() - 3; }\n'}, ['bin/exe', 'plain'], False, {},
                               ['gfortran', 'g++']),
+    # a static library taken as a whole archive still forwards what it was built on
+    'whole-archive-forwards': ("""
+inner = static_library('in/inner', ['i.c'])
+mid = static_library('mid/mid', ['m.c'], libs=[inner])
+exe = executable('bin/exe', ['main.c'], libs=[whole_archive(mid)])
+sh = shared_library('so/sh', ['s.c'], libs=[whole_archive(mid)])
+exe2 = executable('exe2', ['main2.c'], libs=[sh])
+""", {'i.c': 'int i_fn(void) { return 4; }\n', 'm.c': 'int i_fn(void); int m_fn(void) { return i_fn(); }\n',
+      's.c': 'int m_fn(void); int s_fn(void) { return m_fn(); }\n',
+      'main.c': 'int m_fn(void); int main(void) { return m_fn() - 4; }\n',
+      'main2.c': 'int s_fn(void); int main(void) { return s_fn() - 4; }\n'}, ['bin/exe', 'exe2'], False),
+    # the generic library() with a version, built in both flavours
+    'versioned-dual-use': ("""
+foo = library('foo', ['f.c'], version='1.2.3', soversion='1')
+exe = executable('bin/exe', ['main.c'], libs=[foo])
+""", {'f.c': 'int f_fn(void) { return 6; }\n', 'main.c': 'int f_fn(void); int main(void) { return f_fn() - 6; }\n'},
+                           ['bin/exe'], False, {}, [], ['--enable-shared', '--enable-static']),
     # a pre-built shared library in the source tree, required through a static library
     'prebuilt-behind-static': ("""
 vendor = shared_library('vendor/libvendor.so')
@@ -437,6 +454,7 @@ class LinkRun(Bounded):
             body, sources, exes, inst = DAGS[raw['dag']][:4]
         prebuilt = DAGS[raw['dag']][4] if 'dag' in raw and len(DAGS[raw['dag']]) > 4 else {}
         needs = DAGS[raw['dag']][5] if 'dag' in raw and len(DAGS[raw['dag']]) > 5 else []
+        copts = DAGS[raw['dag']][6] if 'dag' in raw and len(DAGS[raw['dag']]) > 6 else []
         if any(shutil.which(t) is None for t in needs):
             return None             # that compiler is not installed
         top = tempfile.mkdtemp(prefix='pyvc_link_')
@@ -468,7 +486,7 @@ class LinkRun(Bounded):
                 if run(['cc', '-shared', '-fPIC', '-o', src + '/' + lib, src + '/' + lib + '.c']).returncode != 0:
                     return None
             r = run([top + '/bin/bfg9000', 'configure-into', src, b, '--backend=make', '--no-resolve-packages',
-                     '--prefix=' + top + '/pre'])
+                     '--prefix=' + top + '/pre'] + copts)
             if r.returncode != 0:
                 return self.fail(case, raw, 'configure_succeeds', stderr=r.stderr[-500:])
             r = run(['make', '-C', b])
